@@ -14,6 +14,10 @@ static void gen_reg(Draw &d, Case &c) {
   auto e = gen_values(d, (size_t)n * ny * nlv, k - (int)d.i(0, 3), k, d.coin(30));
   // truths must not be constant (R2 divides by the total sum of squares): force two distinct values per response
   for (int j = 0; j < ny; j++) { t[(size_t)0 * ny + j] = 1.5 * std::pow(10.0, k); t[(size_t)1 * ny + j] = -2.5 * std::pow(10.0, k); }
+  // a third of the cases: every response sits on a level of 1e2..1e7 times its spread (one-pass / expanded sums of squares
+  // lose (level/spread)^2 * eps there; the definitions checked here are two-pass)
+  bool lvl = d.coin(33);
+  if (lvl) for (int j = 0; j < ny; j++) { double off = (d.coin(50) ? 1 : -1) * std::pow(10.0, k + d.real(2, 7)); for (int i = 0; i < n; i++) t[(size_t)i * ny + j] = (double)(t[(size_t)i * ny + j] + off); }
   std::vector<char> miss((size_t)n * ny, 0);
   int nm = 0;
   if (n >= 5 && d.coin(50)) { int km = (int)d.i(1, std::max(1, n / 5)); for (int q = 0; q < km; q++) { int i = (int)d.i(2, n - 1), j = (int)d.i(0, ny - 1); if (!miss[(size_t)i * ny + j]) { miss[(size_t)i * ny + j] = 1; nm++; } } }
@@ -24,6 +28,7 @@ static void gen_reg(Draw &d, Case &c) {
   c.nontrivial = n >= 10 || nm > 0;
   if (nm) c.tags.push_back("missing-truths");
   if (perfect) c.tags.push_back("perfect-prediction");
+  if (lvl) c.tags.push_back("level>=1e2*spread");
   c.tags.push_back(fmt("scale=1e%d", k)); c.tags.push_back(fmt("ny=%d,nlv=%d", ny, nlv));
 }
 struct RegRef { ld r2, mse, rmse, mae, bias, tol_r2, tol_mse, tol_mae, tol_bias; };
